@@ -53,7 +53,8 @@ const (
 	FeatAppInCallback  = 64  // C18: the application works (sleeps, approves the pairing) inside ServicePairingDetailUpdate
 	FeatDualStack      = 128 // hub rig: services announce an IPv6 and an IPv4 address, the .local host name may not resolve
 	FeatPartition      = 256 // C05: partition that heals (everything sent meanwhile arrives when it ends)
-	FeatAll            = 511
+	FeatHelloMatrix    = 512 // C08: hello member combinations delivered in the hello listen states, drawn uniformly
+	FeatAll            = 1023
 )
 
 // SetFeatForRig forces the dual-stack options of the next hub rig (workloads
